@@ -59,6 +59,12 @@ def gen_spec(rng, depth=3, profile=None, inline_ok=True):
     """inline_ok: a spec that `ends inline` (a ProgressBar emits no newline) is allowed here."""
     profile = profile or {}
     spec = _gen_spec(rng, depth, profile, inline_ok)
+    if profile.get("decor", True) and rng.random() < 0.15:
+        # purely decorative options (styles of borders, fills, headers, guides; title justification): they colour
+        # cells and must never move one
+        d = _decor(spec["k"], rng)
+        if d:
+            spec["decor"] = d
     solid = spec["k"] == "panel" or (spec["k"] == "text" and spec["s"].strip())
     if profile.get("controls", True) and solid and rng.random() < 0.05:
         # a renderable that emits a control code (bell, cursor visibility, window title) before its content:
@@ -66,6 +72,31 @@ def gen_spec(rng, depth=3, profile=None, inline_ok=True):
         # render at least one line: how many lines a control code alone makes is nobody's contract)
         spec = {"k": "ctrl", "child": spec, "code": rng.choice(["\x07", "\x1b[?25l", "\x1b]0;a window title\x07"])}
     return spec
+
+
+DECOR_STYLES = ["bold", "on red", "italic blue", "underline", "reverse", "dim", "link https://example.org/d",
+                "bold white on #102030", "not bold"]
+
+
+def _decor(kind, rng):
+    st = lambda: rng.choice(DECOR_STYLES)
+    if kind == "rule":
+        return {"style": st()}
+    if kind == "bar":
+        return {"color": rng.choice(["red", "#010203", "color(200)"]), "bgcolor": rng.choice(["default", "blue", "#aabbcc"])}
+    if kind == "pbar":
+        return {"style": st(), "complete_style": st(), "finished_style": st(), "pulse_style": st()}
+    if kind == "panel":
+        return {"border_style": st()}
+    if kind in ("padding", "align"):
+        return {"style": st()}
+    if kind == "tree":
+        return {"style": st(), "guide_style": st()}
+    if kind == "table":
+        return {"header_style": st(), "footer_style": st(), "border_style": st(), "title_style": st(),
+                "caption_style": st(), "title_justify": rng.choice(["left", "center", "right"]),
+                "caption_justify": rng.choice(["left", "center", "right"]), "highlight": rng.random() < 0.5}
+    return None
 
 
 def _gen_spec(rng, depth, profile, inline_ok):
@@ -275,35 +306,38 @@ def build(spec):
                     overflow=spec.get("overflow"), no_wrap=spec.get("no_wrap"))
     if k == "rule":
         from rich.rule import Rule
-        return Rule(spec["title"], characters=spec["characters"], align=spec["align"])
+        return Rule(spec["title"], characters=spec["characters"], align=spec["align"], **spec.get("decor", {}))
     if k == "bar":
         from rich.bar import Bar
-        return Bar(spec["size"], spec["begin"], spec["end"], width=spec["width"])
+        return Bar(spec["size"], spec["begin"], spec["end"], width=spec["width"], **spec.get("decor", {}))
     if k == "pbar":
         from rich.progress_bar import ProgressBar
         return ProgressBar(total=spec["total"], completed=spec["completed"], width=spec["width"],
-                           pulse=spec["pulse"], animation_time=1.0)
+                           pulse=spec["pulse"], animation_time=1.0, **spec.get("decor", {}))
     if k == "panel":
         from rich.panel import Panel
         from rich import box
         if not spec["expand"] and _alt(spec, 2) == 0:
             return Panel.fit(build(spec["child"]), getattr(box, spec["box"]), title=spec["title"],
                              title_align=spec["title_align"], width=spec["width"], padding=spec["padding"],
-                             safe_box=spec.get("safe_box"), style=spec.get("style", "none"))
+                             safe_box=spec.get("safe_box"), style=spec.get("style", "none"), **spec.get("decor", {}))
         return Panel(build(spec["child"]), getattr(box, spec["box"]), title=spec["title"],
                      title_align=spec["title_align"], expand=spec["expand"], width=spec["width"],
-                     padding=spec["padding"], safe_box=spec.get("safe_box"), style=spec.get("style", "none"))
+                     padding=spec["padding"], safe_box=spec.get("safe_box"), style=spec.get("style", "none"),
+                     **spec.get("decor", {}))
     if k == "padding":
         from rich.padding import Padding
         pad = spec["pad"]
         if not spec["expand"] and isinstance(pad, tuple) and len(pad) == 4 and pad[:3] == (0, 0, 0):
-            return Padding.indent(build(spec["child"]), pad[3])
-        return Padding(build(spec["child"]), pad, expand=spec["expand"])
+            if "decor" not in spec:
+                return Padding.indent(build(spec["child"]), pad[3])
+        return Padding(build(spec["child"]), pad, expand=spec["expand"], **spec.get("decor", {}))
     if k == "align":
         from rich.align import Align
         if _alt(spec, 3) == 0:
-            return getattr(Align, spec["align"])(build(spec["child"]), pad=spec["pad"], width=spec["width"])
-        return Align(build(spec["child"]), spec["align"], pad=spec["pad"], width=spec["width"])
+            return getattr(Align, spec["align"])(build(spec["child"]), pad=spec["pad"], width=spec["width"],
+                                                 **spec.get("decor", {}))
+        return Align(build(spec["child"]), spec["align"], pad=spec["pad"], width=spec["width"], **spec.get("decor", {}))
     if k == "constrain":
         from rich.constrain import Constrain
         return Constrain(build(spec["child"]), spec["width"])
@@ -332,6 +366,8 @@ def build(spec):
             kw = {"expanded": node["expanded"]}
             if node.get("guide_style"):
                 kw["guide_style"] = node["guide_style"]
+            if parent is None:
+                kw.update(spec.get("decor", {}))
             t = Tree(build(node["label"]), **kw) if parent is None else parent.add(build(node["label"]), **kw)
             for c in node["children"]:
                 mk(c, t)
@@ -358,7 +394,7 @@ def build_table(spec):
               padding=spec["padding"], collapse_padding=spec["collapse_padding"], pad_edge=spec["pad_edge"],
               expand=spec["expand"], show_header=spec["show_header"], show_footer=spec["show_footer"],
               show_edge=spec["show_edge"], show_lines=spec["show_lines"], leading=spec["leading"],
-              row_styles=spec["row_styles"], style=spec.get("style", "none"))
+              row_styles=spec["row_styles"], style=spec.get("style", "none"), **spec.get("decor", {}))
     declared = spec.get("declared", len(spec["columns"]))
     route = _alt(spec, 4) if "declared" not in spec else 3
     if route == 0 and spec["columns"]:
@@ -369,7 +405,7 @@ def build_table(spec):
                   padding=spec["padding"], collapse_padding=spec["collapse_padding"], pad_edge=spec["pad_edge"],
                   expand=spec["expand"], show_header=spec["show_header"], show_footer=spec["show_footer"],
                   show_edge=spec["show_edge"], show_lines=spec["show_lines"], leading=spec["leading"],
-                  row_styles=spec["row_styles"], style=spec.get("style", "none"))
+                  row_styles=spec["row_styles"], style=spec.get("style", "none"), **spec.get("decor", {}))
         t = Table(*[Column(build(c["header"]), build(c["footer"]), justify=c["justify"], overflow=c["overflow"],
                            ratio=c["ratio"], max_width=c["max_width"], width=c["width"], min_width=c["min_width"],
                            no_wrap=c["no_wrap"], style=c.get("style") or "") for c in spec["columns"]], **kw)
